@@ -445,11 +445,29 @@ class ArgumentParser:
                     namespace._passes[flag_name] = list(default_value)
             parser.add_argument(*option["flags"], **kwargs)
 
+        # argparse accepts unambiguous prefixes of single-dash options, but
+        # compilers do not: "-fopen" is not "-fopenmp". Such arguments are
+        # unrecognized.
+        known = ["-D", "-I", "-isystem", "-include", "-o"]
+        for option in self.compiler.parser:
+            known.extend(option["flags"])
+        arguments = []
+        abbreviated = []
+        for arg in _normalize_arguments(argv + self.compiler.options):
+            name = arg.split("=", 1)[0]
+            if (
+                len(name) > 2
+                and name.startswith("-")
+                and name not in known
+                and any(k.startswith(name) for k in known)
+            ):
+                abbreviated.append(arg)
+            else:
+                arguments.append(arg)
+
         # Make a best-effort attempt to parse arguments.
-        args, unrecognized = parser.parse_known_args(
-            _normalize_arguments(argv + self.compiler.options),
-            namespace,
-        )
+        args, unrecognized = parser.parse_known_args(arguments, namespace)
+        unrecognized = abbreviated + unrecognized
         if unrecognized:
             log.warning(f"Unrecognized arguments: '{' '.join(unrecognized)}'")
 
